@@ -61,7 +61,7 @@ pub open spec fn vacant(h: PgHeap, k: Key) -> bool { h.members[k] =~= Set::<Acto
 /// (which is what the automatic leave on exit walks; a stale extra key there is harmless and not excluded)
 pub open spec fn wf(h: PgHeap) -> bool {
     &&& total(h)
-    &&& forall|s: Seq<char>, g: Seq<char>| #[trigger] h.index[s].contains(g) <==> !vacant(h, (s, g))
+    &&& forall|s: Seq<char>, g: Seq<char>| #![trigger h.index[s].contains(g)] #![trigger vacant(h, (s, g))] h.index[s].contains(g) <==> !vacant(h, (s, g))
     &&& forall|a: ActorId, k: Key| #![trigger h.members[k].contains(a)] #![trigger h.rel[a].contains(k)] h.members[k].contains(a) ==> h.rel[a].contains(k)
 }
 /// `a` is the id of one of the first `n` cells of `s`
@@ -187,6 +187,71 @@ impl GroupMap {
             r matches Entry::Occupied(o) ==> o.key == kv(key),
             r matches Entry::Vacant(v) ==> v.key == kv(key) && vacant(*old(heap), kv(key)))]
     pub fn entry(&self, key: ScopeGroupKey) -> Entry<GOcc, GVac> { unimplemented!() }
+}
+verus! {
+pub struct GRef { pub ghost key: Key }
+pub struct IRef { pub ghost scope: Seq<char> }
+/// every id in `m` is the id of one of the cells of `v`, and every cell of `v` has an id in `m`
+pub open spec fn same_ids(v: Seq<ActorCell>, m: Set<ActorId>) -> bool {
+    &&& forall|j: int| 0 <= j < v.len() ==> m.contains((#[trigger] v[j])@)
+    &&& forall|a: ActorId| #[trigger] m.contains(a) ==> among(v, v.len() as int, a)
+}
+}
+#[verus_verify]
+impl GroupMap {
+    /// `map.get(&key)`: a read guard, absent when the group has neither members nor listeners
+    #[verus_verify(external_body)]
+    #[verus_spec(r =>
+        with Tracked(heap): Tracked<&mut PgHeap>
+        ensures *final(heap) == *old(heap),
+            r matches Some(g) ==> g.key == kv(*key),
+            r is None ==> vacant(*old(heap), kv(*key)))]
+    pub fn get(&self, key: &ScopeGroupKey) -> Option<GRef> { unimplemented!() }
+}
+#[verus_verify]
+impl GRef {
+    #[verus_verify(external_body)]
+    #[verus_spec(r => ensures r.members.key == self.key)]
+    pub fn value(&self) -> &GroupState { unimplemented!() }
+}
+#[verus_verify]
+impl IndexMap {
+    #[verus_verify(external_body)]
+    #[verus_spec(r =>
+        with Tracked(heap): Tracked<&mut PgHeap>
+        ensures *final(heap) == *old(heap),
+            r matches Some(g) ==> g.scope == scope@,
+            r is None ==> old(heap).index[scope@] =~= Set::<Seq<char>>::empty())]
+    pub fn get(&self, scope: &String) -> Option<IRef> { unimplemented!() }
+}
+#[verus_verify]
+impl IRef {
+    /// `groups.iter().cloned().collect()` (R22): every listed group once, any order
+    #[verus_verify(external_body)]
+    #[verus_spec(r =>
+        with Tracked(heap): Tracked<&mut PgHeap>
+        ensures *final(heap) == *old(heap),
+            forall|j: int| 0 <= j < r@.len() ==> old(heap).index[self.scope].contains((#[trigger] r@[j])@),
+            forall|g: Seq<char>| #[trigger] old(heap).index[self.scope].contains(g) ==> exists|j: int| 0 <= j < r@.len() && (#[trigger] r@[j])@ == g)]
+    pub fn vx_iter_cloned_collect(&self) -> Vec<String> { unimplemented!() }
+}
+#[verus_verify]
+impl MemberMap {
+    /// `members.values().cloned().collect()` (R22): every member cell once, any order
+    #[verus_verify(external_body)]
+    #[verus_spec(r =>
+        with Tracked(heap): Tracked<&mut PgHeap>
+        ensures *final(heap) == *old(heap), same_ids(r@, old(heap).members[self.key]))]
+    pub fn vx_values_cloned_collect(&self) -> Vec<ActorCell> { unimplemented!() }
+    /// `members.values().filter(f).cloned().collect()` (R22): exactly the member cells `f` accepts
+    #[verus_verify(external_body)]
+    #[verus_spec(r =>
+        with Tracked(heap): Tracked<&mut PgHeap>
+        requires forall|x: &&ActorCell| f.requires((x,))
+        ensures *final(heap) == *old(heap),
+            forall|j: int| 0 <= j < r@.len() ==> old(heap).members[self.key].contains((#[trigger] r@[j])@) && f.ensures((&&r@[j],), true),
+            forall|a: ActorId| old(heap).members[self.key].contains(a) && (forall|c: ActorCell| c@ == a ==> !#[trigger] f.ensures((&&c,), false)) ==> #[trigger] among(r@, r@.len() as int, a))]
+    pub fn vx_values_filter_cloned_collect<F: Fn(&&ActorCell) -> bool>(&self, f: F) -> Vec<ActorCell> { unimplemented!() }
 }
 #[verus_verify]
 impl GOcc {
